@@ -1,4 +1,71 @@
-import MementoModel.Model.RunnerProg
+import MementoModel.Lemmas.RunnerSim
+import MementoModel.Lemmas.RunnerProgLemmas
+
+/-!
+# C10 — provenance is exact and independent of what was already memoized
+-/
 namespace Memento.Runner
-theorem placeholder_C10 : replay (.val none) = .val none := rfl
+
+/-- what `propagate_dependencies` does to the caller's record: the callee is appended to the
+    invocations (in order, with repetitions), the callee's function and all its dependencies join the set -/
+theorem propagate_spec (fr : Frame) (r : Rec) :
+    (propagate fr r).invs = fr.invs ++ [r.key] ∧ (propagate fr r).res = fr.res ∧
+    (∀ f, f ∈ (propagate fr r).deps ↔ f ∈ fr.deps ∨ f = r.key.fn ∨ f ∈ r.deps) :=
+  ⟨rfl, rfl, propagate_deps fr r⟩
+
+/-- **exact and store-independent**: from any sound store, the record stored for a computed call — and
+    the record propagated to a caller, whether the call was computed, found before the run, found by
+    the batch pre-check, or raised — is the record of the un-memoized execution: same direct
+    invocations in order (with their argument identity and context), same resource handles, same
+    dependency set -/
+theorem provenance_exact (P : Prog) (hw : WellBehaved P) (hp : NoPrevent P) (n : Nat) (s s' : St) (hs : Sound P s)
+    (fn : Fn) (args : List Val) (ctx : CtxSpec) (fl : Flags) (hfl : fl.prevent = false)
+    (res : Except Outcome (List Outcome)) (recs : List Rec)
+    (h : run P n s none fn args ctx fl = some (s', res, recs)) :
+    Sound P s' ∧ ∀ r ∈ recs, ∃ m r', pureRec P m r.key = some r' ∧ Rec.same r r' := by
+  obtain ⟨hs', _, _, _, recs', _, _, hrecs⟩ := sim_top hw hp hs hfl h
+  refine ⟨hs', fun r hr => ?_⟩
+  obtain ⟨r', hsame, hpure⟩ := hrecs.mem r hr
+  obtain ⟨m, hm⟩ := hpure.pureRec
+  exact ⟨m, r', by rw [hsame.1]; exact hm, hsame⟩
+
+/-- consequently two sound stores (any subsets of the sub-calls memoized beforehand) give the same record -/
+theorem provenance_store_independent (P : Prog) (hw : WellBehaved P) (hp : NoPrevent P) (n : Nat)
+    (s1 s2 s1' s2' : St) (h1 : Sound P s1) (h2 : Sound P s2) (fn : Fn) (arg : Val) (ctx : CtxSpec)
+    (o1 o2 : Except Outcome (List Outcome)) (r1 r2 : Rec)
+    (e1 : run P n s1 none fn [arg] ctx {} = some (s1', o1, [r1]))
+    (e2 : run P n s2 none fn [arg] ctx {} = some (s2', o2, [r2])) :
+    Rec.same r1 r2 := by
+  obtain ⟨_, hx1⟩ := provenance_exact P hw hp n s1 s1' h1 fn [arg] ctx {} rfl o1 [r1] e1
+  obtain ⟨_, hx2⟩ := provenance_exact P hw hp n s2 s2' h2 fn [arg] ctx {} rfl o2 [r2] e2
+  obtain ⟨m1, r1', p1, q1⟩ := hx1 r1 (List.mem_singleton.2 rfl)
+  obtain ⟨m2, r2', p2, q2⟩ := hx2 r2 (List.mem_singleton.2 rfl)
+  rw [run_single_top_key h1.keyed e1] at p1
+  rw [run_single_top_key h2.keyed e2] at p2
+  have : r1' = r2' := pureRec_det P p1 p2
+  subst this
+  exact Rec.same_trans q1 (Rec.same_symm q2)
+
+/-- a resource handle obtained by the body is recorded on the body's own record, in order -/
+theorem resource_recorded (callee) (h : Nat) (k : Body) (s : St) (fr : Frame) :
+    execBody callee (.resource h k) s fr = execBody callee k s { fr with res := fr.res ++ [h] } := by
+  simp only [execBody]
+
+/-! non-vacuity -/
+private def demoDefs : List (Fn × FnDef) :=
+  [(1, ⟨[], 2, 1, clsRebuildable, 5, 10, false⟩),
+   (2, ⟨[.call 1 0 .inherit {} true (0, 0), .batch 1 [1, 0] (.set 3) {} false (0, 0), .resource 7], 0, 0, 0, 0, 1, false⟩)]
+private def demoP : Prog := progOf demoDefs [(2, 1)]
+private def cold : St := { store := [], trace := [] }
+private def warm : St := ((callTop demoP 5 cold 1 0 .inherit {}).map (·.1)).getD cold
+
+example : (pureRec demoP 5 ⟨2, 0, 0⟩).map (fun r => (r.invs, r.res, r.deps)) =
+    some ([⟨1, 0, 0⟩, ⟨1, 1, 3⟩, ⟨1, 0, 3⟩], [7], [2, 1]) := by decide
+example : ((run demoP 5 warm none 2 [0] .inherit {}).map (fun x => x.2.2.map (fun r => (r.invs, r.res)))) =
+    some [([⟨1, 0, 0⟩, ⟨1, 1, 3⟩, ⟨1, 0, 3⟩], [7])] := by decide
+/-! the hypotheses of `provenance_exact` hold for it -/
+example : WellBehaved demoP := wellBehaved_progOf _ _
+example : NoPrevent demoP := noPrevent_progOf _ _ (by decide)
+example : Sound demoP cold := Sound.empty _ _
+
 end Memento.Runner
